@@ -343,6 +343,118 @@ void h_quote_key(void)
     free(q);
 }
 
+/* -------------------------------------------------------------- descriptors */
+#ifdef H_DESCRIPTOR
+#ifndef VERIF_NATIVE
+/* ASSUMED CONTRACT: for a format without conversions vasprintf returns a fresh copy of it */
+int vasprintf(char **strp, const char *fmt, va_list ap)
+{
+    size_t n = 0;
+
+    (void)ap;
+    for (int i = 0; i < 32; ++i) {
+	if (fmt[i] == 0)
+	    break;
+	CHECK(fmt[i] != '%', "infra: descriptor harness uses formats without conversions");
+	++n;
+    }
+    *strp = malloc(n + 1);
+    ASSUME(*strp != NULL);
+    for (size_t i = 0; i <= n; ++i)
+	(*strp)[i] = fmt[i];
+    return (int)n;
+}
+#endif
+
+/*
+ * Descriptor strings against the document model: set creates what get finds;
+ * a malformed or non-matching descriptor fails with the documented errno and
+ * changes nothing; nothing crashes and nothing leaks.  Concrete descriptors
+ * (one per run), the real scanner / parser / container code.
+ */
+#ifndef DESC_CASE
+#define DESC_CASE 0
+#endif
+static _Bool str_eq(const char *a, const char *b)
+{
+    for (int i = 0; i < 16; ++i) {
+	if (a[i] != b[i])
+	    return 0;
+	if (a[i] == 0)
+	    return 1;
+    }
+    return 0;
+}
+
+void h_descriptor(void)
+{
+    vnaproperty_t *root = NULL;
+    const char *v;
+    vnaproperty_t *sub;
+    int rc;
+
+    rc = vnaproperty_set(&root, "foo=bar");
+    CHECK(rc == 0 && root != NULL, "set creates the map entry");
+    REACH("tree built");
+    v = vnaproperty_get(root, "foo");
+    CHECK(v != NULL && str_eq(v, "bar"), "get returns the value that was set");
+#if DESC_CASE == 0
+    errno = 0;
+    sub = vnaproperty_get_subtree(root, "foo=x");	/* trailing tokens */
+    REACH("malformed get_subtree returned");
+    CHECK(sub == NULL && errno == EINVAL, "get_subtree with trailing tokens is refused with EINVAL");
+#elif DESC_CASE == 1
+    errno = 0;
+    v = vnaproperty_get(root, "nokey");
+    REACH("get of a missing key returned");
+    CHECK(v == NULL && errno == ENOENT, "a missing key is ENOENT");
+#elif DESC_CASE == 2
+    errno = 0;
+    sub = vnaproperty_get_subtree(root, "foo");
+    REACH("get_subtree returned");
+    CHECK(sub != NULL && vnaproperty_type(sub, ".") == 's', "get_subtree finds the scalar");
+#elif DESC_CASE == 3
+    errno = 0;
+    rc = vnaproperty_set(&root, "foo[");		/* syntax error */
+    REACH("malformed set returned");
+    CHECK(rc == -1 && errno == EINVAL, "a syntax error is refused with EINVAL");
+    v = vnaproperty_get(root, "foo");
+    CHECK(v != NULL && str_eq(v, "bar"), "a refused set changes nothing");
+#elif DESC_CASE == 4
+    errno = 0;
+    v = vnaproperty_get(root, "foo[0]");		/* type mismatch: scalar indexed as a list */
+    REACH("mismatched get returned");
+    CHECK(v == NULL && errno != 0, "indexing a scalar fails with an errno");
+    v = vnaproperty_get(root, "foo");
+    CHECK(v != NULL && str_eq(v, "bar"), "a failed get changes nothing");
+#elif DESC_CASE == 5
+    rc = vnaproperty_set(&root, "lst[1]=b");
+    CHECK(rc == 0, "set extends a list");
+    REACH("list created");
+    CHECK(vnaproperty_count(root, "lst") == 2, "a list set at index 1 has two elements");
+    v = vnaproperty_get(root, "lst[1]");
+    CHECK(v != NULL && str_eq(v, "b"), "the element reads back");
+    errno = 0;
+    v = vnaproperty_get(root, "lst[0]");
+    CHECK(v == NULL, "the skipped element has no value");
+#elif DESC_CASE == 6
+    rc = vnaproperty_delete(&root, "foo");
+    REACH("delete returned");
+    CHECK(rc == 0, "delete removes the key");
+    errno = 0;
+    v = vnaproperty_get(root, "foo");
+    CHECK(v == NULL && errno == ENOENT, "the deleted key is gone");
+    errno = 0;
+    rc = vnaproperty_delete(&root, "foo");
+    CHECK(rc == -1 && errno == ENOENT, "deleting it again is ENOENT");
+#endif
+    (void)sub; (void)v;
+    (void)vnaproperty_delete(&root, ".");
+    CHECK(root == NULL, "deleting the root empties the tree");
+    /* --memory-leak-check */
+}
+#endif
+
 #ifdef VERIF_NATIVE
 int main(void) { HARNESS(); return 0; }
 #endif
